@@ -317,6 +317,16 @@ pub fn decompress(
                     ))),
                 ))
             })? as usize;
+            // An LZ4 block cannot expand by a factor of 255 or more, so a larger
+            // claimed size is bogus; do not let it size the output buffer.
+            if uncomp_len / 255 > comp_body.len() {
+                return Err(FrameBodyExtensionsParseError::Lz4DecompressError(Arc::new(
+                    LowLevelDeserializationError::IoError(Arc::new(std::io::Error::new(
+                        std::io::ErrorKind::InvalidData,
+                        "lz4 frame body claims an impossible uncompressed size",
+                    ))),
+                )));
+            }
             let uncomp_body = lz4_flex::decompress(comp_body, uncomp_len)
                 .map_err(|err| FrameBodyExtensionsParseError::Lz4DecompressError(Arc::new(err)))?;
             Ok(uncomp_body)
